@@ -58,6 +58,10 @@ theorem gen_complete_boundary (v : Nat) (offs : List (Nat × Rat)) (x : Asg)
       simp only [Bool.false_eq_true, if_false, update_same, update_other x v b p.1 hne]
       exact h1.2 hneg
 
+example : BoundaryMeaning [(0, -3), (1, 4)] (fun i => if i = 0 then 0 else 10) := by
+  refine ⟨5, fun p hp => ?_⟩
+  simp at hp; rcases hp with rfl | rfl <;> simp <;> norm_num
+
 /-- aux-free form of the boundary meaning (what the checker decides), with tolerance:
     the pairwise condition yields a separating line -/
 theorem boundaryTol_line (tol : Rat) (x : Asg) (offs : List (Nat × Rat)) (h : BoundaryTol tol x offs) :
@@ -114,6 +118,9 @@ theorem gen_complete_alignment (v : Nat) (offs : List (Nat × Rat)) (x : Asg)
   · refine (allHold_map _ offs _).mpr (fun p hp => ?_)
     simp only [Holds, if_true, update_same, update_other x v g p.1 (hv p hp)]
     exact (h p hp).symm
+
+example : IsGuide [(0, 1), (1, 2)] (fun i => if i = 0 then 4 else 5) 3 := by
+  intro p hp; simp at hp; rcases hp with rfl | rfl <;> simp <;> norm_num
 
 theorem alignment_pairwise (x : Asg) (offs : List (Nat × Rat)) :
     AlignmentMeaning offs x ↔ AlignmentTol 0 x offs := by
